@@ -1,3 +1,38 @@
+/-
+Document transactions and PatchByJSON over the server log (C09 + C19 end to end, Document datatype).
+Namespace `Orda.DTx`.  Reuses `DNet.Node`, `DNet.Net`, `DNet.Net.init`, `DNet.CuidsDistinct`, `DNet.CallOK`, `DNet.SameOps`,
+`DNet.Quiescent`, `DNet.Holds`; from `ListTxNet` the datatype-independent notions `isHdr`, `IsUnit`, `flatU`, `eraseB`, `eraseL`,
+`UnitsB`, `UnitsL` with their lemmas, and `Le`, `exS`, `call_view`.
+
+THE SYSTEM (§1).  `Step`:
+  * `call i c`      — a public call with `DNet.CallOK c` (no duplicate keys in the values, not an insert of zero values);
+  * `tx i tag calls stopOnErr failAtEnd` — a user transaction whose body issues `calls` (every one `CallOK`);
+  * `patch i tgt`   — `r := (r.patchByJSON (.obj tgt)).1` for `TgtOK tgt` (no null, no duplicate keys);
+  * `pushAll i`     — ALL unpushed operations of node `i`'s buffer go to the end of the log, in buffer order;
+  * `pullAll i`     — the entries of the others in the rest of the log (`pullOps`) go through ONE `Replica.receive`.
+`Reach cuid n net`: reachable from `n` fresh subscribers `Replica.new .document (cuid i) false`; `Reach.init` carries
+`CuidsDistinct cuid n`.  `act`/`run`/`ActOK`: executable form.
+
+RESULTS (§9, §10), no hypothesis beyond `Reach` (and `CallOK` / `TgtOK` of what is issued):
+  * `dtx_failed_tx_is_noop` (+ `_net`), `dtx_tx_never_panics`, `dtx_committed_tx_is_one_unit`;
+  * `dtx_log_is_units`, `dtx_all_or_nothing` (`dtx_all_or_nothing_pos`, `dtx_log_nodup`), `dtx_receive_ok`;
+  * `dtx_nodes_applied`, `dtx_docInv`, `dtx_same_operations_same_document`, `dtx_quiescent_converged` (`ASim` + equal canonical
+    view; `sameOps_of_caught_up`, `sameOps_of_quiescent`), `dtx_can_quiesce`;
+  * `dtx_patch_reaches_target`, `dtx_patch_is_one_unit`, `dtx_patch_propagates` (with `SyncStep`, `Syncs`, `NoConc`).
+
+HOW.  As in `ListTxNet`: the header-erased state (`Abs`) satisfies the invariant of the plain system, a committed transaction /
+multi-operation patch is a clock bump followed by the `call`s of its operations (`body_sim`, `patch_body_sim`), a
+single-operation patch IS a `call`, `pullAll` is a sequence of `pull`s followed by a clock bump.
+ONE DEVIATION from the suggested strategy, forced: `DNet.Inv` itself can NOT be the invariant of the header-erased state.
+`DNet.NodeInv.life : DR.Life …` says the replica was reached from `Replica.new` by `call`s and deliveries only, and `DR.Life`
+is not closed under clock bumps: a header consumes a lamport, so the erased buffer of a node that committed `tx [put]` from the
+fresh state holds ONE operation with lamport 2, while a `Life` replica with one own operation and no delivery has stamped it 1.
+§2 therefore restates `DocNet`'s invariant as `NInv` / `SInv` with `life` replaced by the two consequences of it that `DocNet`
+uses — `DP.DocInv` and `DLR.HistOK` — (proofs of `DocNet` §3–§4 carried over verbatim otherwise), which IS closed under clock
+bumps (`ninv_bump`).  §7: unlike for lists, a remote document operation is panic-free only where it is applicable (`GoodD`), so
+`receive` is simulated step by step against `SInv` (`recv_sim`: every executed operation is a `pull` there, `SInv.deliver`
+gives `GoodD`).  §11 `Ex`: non-vacuity.
+-/
 import Orda.Proofs.DocNetOrder
 import Orda.Proofs.DocPatch
 import Orda.Proofs.ListTxNet
@@ -287,7 +322,7 @@ theorem deliver (I : SInv cuid n net ap) {j : Nat} {nd : Node} {a : Nat} {o : Op
 
 end SInv
 
-/-! ## 4. the steps keep the invariant -/
+/-! ### the steps of `DocNet` keep it -/
 
 /-- a public call either leaves the replica alone or queues ONE operation that is applicable in the state before the call
     and whose application IS the state after the call -/
@@ -1410,9 +1445,8 @@ end recv
 /-! ## 8. the invariant of the system -/
 
 open Orda.LTx (hdr_safe)
-/-! ## 6. the invariant of the system -/
 
-/-- what is known about a node beyond its `ListNet` image -/
+/-- what is known about a node beyond its header-free image -/
 structure NodeOK (cuid : Nat → String) (log : List LEnt) (i : Nat) (nd : Node) : Prop where
   rb : nd.r.RbInv
   pushed_le : nd.pushed ≤ nd.r.buffer.length
@@ -1427,7 +1461,7 @@ structure NodeOK (cuid : Nat → String) (log : List LEnt) (i : Nat) (nd : Node)
   buf_lam : ∀ o ∈ nd.r.buffer, o.id.lamport ≤ nd.r.opId.lamport
 
 structure TInv (cuid : Nat → String) (n : Nat) (net : Net) : Prop where
-  /-- erasing the headers gives a state that satisfies `ListNet`'s invariant -/
+  /-- erasing the headers gives a state that satisfies `SInv` (`DocNet`'s invariant without `DR.Life`) -/
   sim : ∃ net0 ap, SInv cuid n net0 ap ∧ Abs net net0
   node : ∀ (i : Nat) (nd : Node), net.nodes[i]? = some nd → NodeOK cuid net.log i nd
   /-- ONE decomposition of the log into units, and every `pulled` sits at one of ITS boundaries -/
@@ -1576,7 +1610,7 @@ theorem call (T : TInv cuid n net) {i : Nat} {nd : Node} (hi : net.nodes[i]? = s
 
 end TInv
 
-/-- what a transaction does to a replica of a reachable node (`nd0`, `N0`: its `ListNet` image): either NOTHING
+/-- what a transaction does to a replica of a reachable node (`nd0`, `N0`: its header-free image): either NOTHING
     (state, clock, buffer, checkpoint as before: the body failed and the rollback restored everything) or ONE unit
     `header :: ops` is appended; it never panics -/
 theorem tx_cases {cuid : Nat → String} {n : Nat} {log0 : List LEnt} {i : Nat} {nd0 : Node} {A : List LEnt}
@@ -2564,10 +2598,10 @@ theorem Syncs.reaches {a b : Net} (h : Syncs a b) : Reaches a b := by
   | refl => exact .refl _
   | tail _ hs ih => exact .tail ih hs.step
 
-/-- no operation of another node is concurrent to what node `i` issues now: node `i` has consumed the whole log and the
-    other nodes hold nothing back -/
+/-- no operation of another node is concurrent to what node `i` issues now: node `i` has consumed every log entry of the
+    others (`oth i`: the entries not written by `i`) and the other nodes hold nothing back -/
 def NoConc (net : Net) (i : Nat) : Prop :=
-  (∃ nd, net.nodes[i]? = some nd ∧ nd.pulled = net.log.length) ∧
+  (∃ nd, net.nodes[i]? = some nd ∧ oth i (net.log.drop nd.pulled) = []) ∧
   ∀ (k : Nat) (ndk : Node), k ≠ i → net.nodes[k]? = some ndk → ndk.pushed = ndk.r.buffer.length
 
 /-- node `i` holds `s`, nothing foreign is left for it in the log, the other nodes hold nothing back -/
@@ -2656,8 +2690,8 @@ theorem quiescent_views_equal (h : Reach cuid n net) (hq : Quiescent net) {j k :
     In EVERY quiescent state `net2` reached:
     (1) all nodes show the same canonical JSON value (the one node `i` shows then);
     (2) if no operation of another node was concurrent to the patch (`NoConc net i`: when the patch was issued node `i` had
-        consumed the whole log and the other nodes had empty pending buffers), that value IS the view node `i` had right
-        after the patch, which IS the target.
+        consumed every log entry of the others and the other nodes had empty pending buffers), that value IS the view node
+        `i` had right after the patch, which IS the target.
     Without `NoConc` (2) is false: the concurrent operations of the others are merged in (see `Ex`). -/
 theorem dtx_patch_propagates (h : Reach cuid n net) {i : Nat} {nd : Node} (hi : net.nodes[i]? = some nd)
     (tgt : List (String × JVal)) (hn : (JVal.obj tgt).hasNull = false) (hk : JKeysND (.obj tgt)) {net1 net2 : Net}
@@ -2682,9 +2716,7 @@ theorem dtx_patch_propagates (h : Reach cuid n net) {i : Nat} {nd : Node} (hi : 
   obtain ⟨d', g1, g2, g3⟩ := dtx_patch_reaches_target h hi hd tgt hn hk
   have hset : Settled i (.doc d') net1 := by
     rw [h1]
-    refine ⟨⟨_, getElem?_set_self' hi, g1, ?_⟩, ?_⟩
-    · show oth i (net.log.drop nd.pulled) = []
-      rw [hpl, List.drop_length]; rfl
+    refine ⟨⟨_, getElem?_set_self' hi, g1, hpl⟩, ?_⟩
     · intro k ndk hne hk'
       rcases getElem?_set_some hk' with ⟨rfl, _⟩ | ⟨_, hk''⟩
       · exact absurd rfl hne
@@ -2700,5 +2732,328 @@ theorem dtx_patch_propagates (h : Reach cuid n net) {i : Nat} {nd : Node} (hi : 
 
 end patchthms
 
+
+
+/-! ## 11. non-vacuity: three nodes, a nested document, a multi-operation patch concurrent with a call, a failing and a
+committed transaction, a run to quiescence; a second run without concurrency
+
+Node 0 puts an array under `arr`, a nested object under `o` and a number under `k`, pushes; nodes 1 and 2 pull (`preNet`).
+Then, CONCURRENTLY:
+  * node 0 runs PatchByJSON with target `{"k": "w", "o": {"p": {"x": 6}}, "arr": [1, 3]}`: a script of THREE operations
+    (append to the array, replace an object key, replace a key two objects down), queued as ONE unit of four entries;
+  * node 1 inserts `"m"` at the head of the array (plain call);
+  * node 2 runs the transaction `"t"` (a put, then a remove of a key that does not exist; the body stops there): rolled back;
+  * node 2 commits the transaction `"t2"` (a put, a read, a remove of `k` — which wins against the patch's put on `k`: same
+    lamport, larger client).
+Everybody pushes (1, 0, 2); node 0 pulls (`midNet`: not quiescent); then 1 and 2 pull (`finalNet`: quiescent).
+Run B (`sync2` after the patch step on `preNet`): only synchronisation follows the patch: every node ends with exactly the
+target.  (Paths with array indices are avoided in the evaluated runs only because `String.toInt?` does not reduce by
+`decide`; the theorems cover them.) -/
+namespace Ex
+
+def cu : Nat → String
+  | 0 => "a" | 1 => "b" | _ => "c"
+/-- the array node 0 creates -/
+def arrId : Ts := ⟨0, 1, "a", 0⟩
+def tgt : List (String × JVal) :=
+  [("k", .str "w"), ("o", .obj [("p", .obj [("x", .num 6)])]), ("arr", .arr [.num 1, .num 3])]
+
+def pre : List Act := [
+  .call 0 (.dput Ts.oldest "arr" (.arr [.num 1])),
+  .call 0 (.dput Ts.oldest "o" (.obj [("p", .obj [("x", .num 5)])])),
+  .call 0 (.dput Ts.oldest "k" (.num 7)),
+  .pushAll 0, .pullAll 1, .pullAll 2]
+
+def acts : List Act := pre ++ [
+  .patch 0 tgt,
+  .call 1 (.dinsert arrId 0 [.str "m"]),
+  .tx 2 "t" [.dput Ts.oldest "z" (.num 1), .dremove Ts.oldest "nokey"] true false,
+  .tx 2 "t2" [.dput Ts.oldest "y" (.num 2), .dgetObj Ts.oldest "y", .dremove Ts.oldest "k"] false false,
+  .pushAll 1, .pushAll 0, .pushAll 2,
+  .pullAll 0, .pullAll 1, .pullAll 2]
+
+/-- run B: only synchronisation after the patch -/
+def sync2 : List Act := [.pushAll 0, .pullAll 1, .pullAll 2, .pullAll 0]
+
+def docOf (r : Replica) : Doc := match r.state with | .doc d => d | _ => Doc.empty
+def preNet : Net := (run (Net.init cu 3) pre).getD ⟨[], []⟩
+def midNet : Net := (run (Net.init cu 3) (acts.take 14)).getD ⟨[], []⟩
+def finalNet : Net := (run (Net.init cu 3) acts).getD ⟨[], []⟩
+
+theorem getD_of_isSome {o : Option Net} (h : o.isSome = true) : o = some (o.getD ⟨[], []⟩) := by
+  cases o with
+  | none => cases h
+  | some x => rfl
+
+theorem getD_node {o : Option Node} (h : o.isSome = true) : o = some (o.getD (⟨default, 0, 0⟩ : Node)) := by
+  cases o with
+  | none => cases h
+  | some x => rfl
+
+theorem err_of_test {o : Outcome Unit} {c : Nat}
+    (h : (match o with | .err c' => decide (c' = c) | _ => false) = true) : o = .err c := by
+  cases o with
+  | err c' => simp only [decide_eq_true_eq] at h; rw [h]
+  | ok _ => cases h
+  | panic _ => cases h
+
+theorem run_pre : run (Net.init cu 3) pre = some preNet := getD_of_isSome (by decide)
+theorem run_mid : run (Net.init cu 3) (acts.take 14) = some midNet := getD_of_isSome (by decide)
+theorem run_final : run (Net.init cu 3) acts = some finalNet := getD_of_isSome (by decide)
+
+theorem cu_distinct : CuidsDistinct cu 3 := by
+  intro i j hi hj h
+  have h1 : i = 0 ∨ i = 1 ∨ i = 2 := by omega
+  have h2 : j = 0 ∨ j = 1 ∨ j = 2 := by omega
+  rcases h1 with rfl | rfl | rfl <;> rcases h2 with rfl | rfl | rfl <;> first | rfl | (exact absurd h (by decide))
+
+theorem tgt_ok : TgtOK tgt := ⟨by rfl, by simp [tgt, JKeysND, JKeysNDKvs, JKeysNDList]⟩
+
+theorem pre_ok : ∀ a ∈ pre, ActOK a := by
+  intro a ha
+  simp only [pre, List.mem_cons, List.mem_nil_iff, or_false] at ha
+  rcases ha with rfl | rfl | rfl | rfl | rfl | rfl <;>
+  first
+    | trivial
+    | (refine ⟨by simp [DP.CallKeysND, JKeysND, JKeysNDList, JKeysNDKvs], ?_⟩; intro h pos e; cases e)
+
+theorem acts_ok : ∀ a ∈ acts, ActOK a := by
+  intro a ha
+  rcases List.mem_append.mp ha with ha | ha
+  · exact pre_ok a ha
+  · simp only [List.mem_cons, List.mem_nil_iff, or_false] at ha
+    rcases ha with rfl | rfl | rfl | rfl | rfl | rfl | rfl | rfl | rfl | rfl
+    · exact tgt_ok
+    · refine ⟨by simp [DP.CallKeysND, JKeysND, JKeysNDList, JKeysNDKvs], ?_⟩; intro h pos e; cases e
+    · intro c hc
+      simp only [List.mem_cons, List.mem_nil_iff, or_false] at hc
+      rcases hc with rfl | rfl <;>
+        (refine ⟨by simp [DP.CallKeysND, JKeysND, JKeysNDList, JKeysNDKvs], ?_⟩; intro h pos e; cases e)
+    · intro c hc
+      simp only [List.mem_cons, List.mem_nil_iff, or_false] at hc
+      rcases hc with rfl | rfl | rfl <;>
+        (refine ⟨by simp [DP.CallKeysND, JKeysND, JKeysNDList, JKeysNDKvs], ?_⟩; intro h pos e; cases e)
+    all_goals trivial
+
+theorem reach_pre : Reach cu 3 preNet := reach_run pre (.init cu_distinct) run_pre pre_ok
+theorem reach_mid : Reach cu 3 midNet :=
+  reach_run (acts.take 14) (.init cu_distinct) run_mid (fun a ha => acts_ok a (List.mem_of_mem_take ha))
+theorem reach_final : Reach cu 3 finalNet := reach_run acts (.init cu_distinct) run_final acts_ok
+
+/-- every node of a reachable state holds some document (no evaluation needed) -/
+theorem holds_of_reach {net : Net} (h : Reach cu 3 net) {j : Nat} (hj : j < net.nodes.length) : ∃ d, Holds net j d := by
+  obtain ⟨d, hd, _⟩ := dtx_docInv h (List.getElem?_eq_getElem hj)
+  exact ⟨d, _, List.getElem?_eq_getElem hj, hd⟩
+
+theorem len_final : finalNet.nodes.length = 3 := by decide
+
+/-- eleven entries went through the log: node 0's three puts, node 1's insert, the unit of the patch (header announcing 4
+    and three operations), the unit of `"t2"` (header announcing 3 and two operations: the read queues nothing); the failed
+    transaction `"t"` left nothing.  The state is quiescent. -/
+theorem final_shape : finalNet.log.map (fun e => (e.1, isHdr e.2)) =
+      [(0, false), (0, false), (0, false), (1, false), (0, true), (0, false), (0, false), (0, false),
+       (2, true), (2, false), (2, false)] ∧
+    finalNet.nodes.map (fun nd => (nd.pushed, nd.r.buffer.length, nd.pulled)) = [(7, 7, 11), (1, 1, 11), (3, 3, 11)] := by
+  decide +kernel
+
+theorem quiescent_final : Quiescent finalNet := by
+  intro nd hnd
+  have h2 := final_shape.2
+  have hl : finalNet.log.length = 11 := by
+    have := congrArg List.length final_shape.1
+    simpa using this
+  have : (nd.pushed, nd.r.buffer.length, nd.pulled) ∈
+      finalNet.nodes.map (fun nd => (nd.pushed, nd.r.buffer.length, nd.pulled)) := List.mem_map.mpr ⟨nd, hnd, rfl⟩
+  rw [h2] at this
+  simp only [List.mem_cons, Prod.mk.injEq, List.mem_nil_iff, or_false] at this
+  rw [hl]
+  omega
+
+/-- `dtx_quiescent_converged` instantiated: any two nodes show the same canonical value (no evaluation) -/
+example : ∀ (j k : Nat) (dj dk : Doc), Holds finalNet j dj → Holds finalNet k dk →
+    ASim dj dk ∧ dj.view.canon = dk.view.canon :=
+  fun j k dj dk hj hk => quiescent_views_equal reach_final quiescent_final hj hk
+
+/-- … and the common view (kernel evaluation of the run): the patch, node 1's concurrent insert and the committed
+    transaction are all there; it is NOT the target of the patch -/
+theorem final_views : finalNet.nodes.map (fun nd => (docOf nd.r).view.canon ==
+      .obj [("arr", .arr [.str "m", .num 1, .num 3]), ("o", .obj [("p", .obj [("x", .num 6)])]), ("y", .num 2)]) =
+      [true, true, true] ∧
+    finalNet.nodes.map (fun nd => (docOf nd.r).view.canon == (JVal.obj tgt).canon) = [false, false, false] := by
+  decide +kernel
+
+def nd0 : Node := (preNet.nodes[0]?).getD (⟨default, 0, 0⟩ : Node)
+theorem nd0_eq : preNet.nodes[0]? = some nd0 := getD_node (by decide +kernel)
+
+/-- the patch at node 0 in `preNet`: the script has three operations (an add, two replaces) -/
+def opSig : PatchOp → List String × Nat
+  | .add p _ => (p, 0)
+  | .remove p => (p, 1)
+  | .replace p _ => (p, 2)
+
+example : (nd0.r.patchByJSON (.obj tgt)).2.1.map opSig =
+    [(["arr", "-"], 0), (["k"], 2), (["o", "p", "x"], 2)] := by
+  decide +kernel
+
+/-- `dtx_patch_reaches_target` instantiated there -/
+example : ∃ d', (nd0.r.patchByJSON (.obj tgt)).1.state = .doc d' ∧ (nd0.r.patchByJSON (.obj tgt)).2.2 = .ok () ∧
+    d'.view.canon = .obj [("arr", .arr [.num 1, .num 3]), ("k", .str "w"), ("o", .obj [("p", .obj [("x", .num 6)])])] := by
+  obtain ⟨d, hd, _⟩ := dtx_docInv reach_pre nd0_eq
+  obtain ⟨d', h1, h2, h3⟩ := dtx_patch_reaches_target reach_pre nd0_eq hd tgt tgt_ok.1 tgt_ok.2
+  exact ⟨d', h1, h2, h3.trans (by rfl)⟩
+
+/-- `dtx_patch_is_one_unit` instantiated: ONE unit of four entries -/
+example : ∃ u : List Op, (nd0.r.patchByJSON (.obj tgt)).1.buffer = nd0.r.buffer ++ u ∧ IsUnit u ∧ u.length = 4 := by
+  obtain ⟨u, h1, h2, _, _, h5⟩ := dtx_patch_is_one_unit reach_pre nd0_eq tgt tgt_ok.1 tgt_ok.2
+  have hl : (nd0.r.patchByJSON (.obj tgt)).2.1.length = 3 := by decide +kernel
+  have h4 : u.length = 4 := by rw [h5 (by omega), hl]
+  rcases h2 with rfl | h2
+  · simp at h4
+  · exact ⟨u, h1, h2, h4⟩
+
+/-- the failing transaction `"t"` on node 2 (state after the first eight actions): it returns an error; by
+    `dtx_failed_tx_is_noop` identifier, state, buffer and checkpoint are as before -/
+def net8 : Net := (run (Net.init cu 3) (acts.take 8)).getD ⟨[], []⟩
+theorem run_8 : run (Net.init cu 3) (acts.take 8) = some net8 := getD_of_isSome (by decide)
+theorem reach_8 : Reach cu 3 net8 :=
+  reach_run (acts.take 8) (.init cu_distinct) run_8 (fun a ha => acts_ok a (List.mem_of_mem_take ha))
+def nd2 : Node := (net8.nodes[2]?).getD (⟨default, 0, 0⟩ : Node)
+theorem nd2_eq : net8.nodes[2]? = some nd2 := getD_node (by decide +kernel)
+theorem t_fails : (nd2.r.txCalls "t" [.dput Ts.oldest "z" (.num 1), .dremove Ts.oldest "nokey"] true false).2.2 =
+    .err Err.transaction := err_of_test (by decide +kernel)
+example : let r' := (nd2.r.txCalls "t" [.dput Ts.oldest "z" (.num 1), .dremove Ts.oldest "nokey"] true false).1
+    r'.opId = nd2.r.opId ∧ r'.state = nd2.r.state ∧ r'.buffer = nd2.r.buffer ∧ r'.cp = nd2.r.cp :=
+  dtx_failed_tx_is_noop reach_8 nd2_eq "t" _ true false _ t_fails
+
+/-- `dtx_all_or_nothing` instantiated in the NON-quiescent state `midNet`: node 0 has consumed everything, nodes 1 and 2
+    nothing of the two units -/
+example : ∃ units : List (Nat × List Op), midNet.log = units.flatMap (fun (a, u) => u.map (a, ·)) ∧
+    (∀ au ∈ units, IsUnit au.2) ∧
+    ∀ (i : Nat) (nd : Node), midNet.nodes[i]? = some nd → ∀ au ∈ units, au.1 ≠ i →
+      (∀ o ∈ au.2, Applied midNet i (au.1, o)) ∨ (∀ o ∈ au.2, ¬ Applied midNet i (au.1, o)) :=
+  dtx_all_or_nothing reach_mid
+
+theorem mid_shape : (midNet.nodes.map (·.pulled)) = [11, 3, 3] ∧ midNet.log.length = 11 := by decide +kernel
+
+example : ¬ Quiescent midNet := by
+  intro hq
+  have hlt : 1 < midNet.nodes.length := by
+    have := congrArg List.length mid_shape.1
+    simp at this
+    omega
+  have h1 := (hq _ (List.getElem_mem hlt)).2
+  have h2 : (midNet.nodes.map (·.pulled))[1]? = some 3 := by rw [mid_shape.1]; rfl
+  rw [List.getElem?_map, List.getElem?_eq_getElem hlt] at h2
+  simp only [Option.map_some, Option.some.injEq] at h2
+  rw [mid_shape.2] at h1
+  omega
+
+/-- `receive` accepts what node 2 is about to pull in `midNet` (the unit of four among it): `dtx_receive_ok` -/
+example : ∀ nd, midNet.nodes[2]? = some nd → (nd.r.receive (pullOps midNet.log 2 nd)).2 = .ok () :=
+  fun nd h => dtx_receive_ok reach_mid h
+
+/-! ### run B: no concurrency — every node ends with exactly the target -/
+
+theorem syncs_run : ∀ (as : List Act) {net net' : Net}, run net as = some net' →
+    (∀ a ∈ as, (∃ i, a = .pushAll i) ∨ ∃ i, a = .pullAll i) → Syncs net net'
+  | [], net, net', h, _ => by
+    simp only [run, Option.some.injEq] at h
+    exact h ▸ .refl _
+  | a :: as, net, net', h, hk => by
+    simp only [run] at h
+    cases ha : act net a with
+    | none => rw [ha] at h; cases h
+    | some net1 =>
+      rw [ha] at h
+      have hs : SyncStep net net1 := by
+        rcases hk a (by simp) with ⟨i, rfl⟩ | ⟨i, rfl⟩
+        · simp only [act] at ha
+          cases hn : net.nodes[i]? with
+          | none => rw [hn] at ha; cases ha
+          | some nd =>
+            rw [hn] at ha
+            simp only [Option.some.injEq] at ha
+            subst ha
+            exact .pushAll net i nd hn
+        · simp only [act] at ha
+          cases hn : net.nodes[i]? with
+          | none => rw [hn] at ha; cases ha
+          | some nd =>
+            rw [hn] at ha
+            simp only [Option.some.injEq] at ha
+            subst ha
+            exact .pullAll net i nd hn
+      have hrest := syncs_run as h (fun a' h' => hk a' (List.mem_cons_of_mem _ h'))
+      have key : ∀ {x y : Net}, Syncs x y → ∀ {w : Net}, SyncStep w x → Syncs w y := by
+        intro x y hxy
+        induction hxy with
+        | refl => intro w hw; exact .tail (.refl _) hw
+        | tail _ hstep ih => intro w hw; exact .tail (ih hw) hstep
+      exact key hrest hs
+
+/-- the state right after the patch step -/
+def net1 : Net := ⟨preNet.nodes.set 0 { nd0 with r := (nd0.r.patchByJSON (.obj tgt)).1 }, preNet.log⟩
+def net2 : Net := (run net1 sync2).getD ⟨[], []⟩
+theorem run_sync2 : run net1 sync2 = some net2 := getD_of_isSome (by decide +kernel)
+
+theorem syncs12 : Syncs net1 net2 := by
+  refine syncs_run sync2 run_sync2 ?_
+  intro a ha
+  simp only [sync2, List.mem_cons, List.mem_nil_iff, or_false] at ha
+  rcases ha with rfl | rfl | rfl | rfl
+  · exact Or.inl ⟨0, rfl⟩
+  · exact Or.inr ⟨1, rfl⟩
+  · exact Or.inr ⟨2, rfl⟩
+  · exact Or.inr ⟨0, rfl⟩
+
+theorem shape2 : net2.nodes.map (fun nd => (nd.pushed, nd.r.buffer.length, nd.pulled)) =
+    [(7, 7, 7), (0, 0, 7), (0, 0, 7)] ∧ net2.log.length = 7 := by decide +kernel
+
+theorem quiescent2 : Quiescent net2 := by
+  intro nd hnd
+  have : (nd.pushed, nd.r.buffer.length, nd.pulled) ∈
+      net2.nodes.map (fun nd => (nd.pushed, nd.r.buffer.length, nd.pulled)) := List.mem_map.mpr ⟨nd, hnd, rfl⟩
+  rw [shape2.1] at this
+  simp only [List.mem_cons, Prod.mk.injEq, List.mem_nil_iff, or_false] at this
+  rw [shape2.2]
+  omega
+
+/-- in `preNet` nothing is concurrent to what node 0 issues: the log holds only its own entries, the others hold nothing -/
+theorem pre_shape : preNet.nodes.map (fun nd => (nd.pushed, nd.r.buffer.length)) = [(3, 3), (0, 0), (0, 0)] ∧
+    oth 0 (preNet.log.drop nd0.pulled) = [] := by decide +kernel
+
+theorem noConc_pre : NoConc preNet 0 := by
+  refine ⟨⟨nd0, nd0_eq, pre_shape.2⟩, ?_⟩
+  intro k ndk hne hk
+  have hm : (ndk.pushed, ndk.r.buffer.length) ∈ preNet.nodes.map (fun nd => (nd.pushed, nd.r.buffer.length)) :=
+    List.mem_map.mpr ⟨ndk, List.mem_of_getElem? hk, rfl⟩
+  rw [pre_shape.1] at hm
+  simp only [List.mem_cons, Prod.mk.injEq, List.mem_nil_iff, or_false] at hm
+  by_cases h0 : ndk.pushed = 3
+  · -- that is node 0
+    exfalso
+    have h2 : (preNet.nodes.map (fun nd => (nd.pushed, nd.r.buffer.length)))[k]? = some (ndk.pushed, ndk.r.buffer.length) := by
+      rw [List.getElem?_map, hk]; rfl
+    rw [pre_shape.1] at h2
+    match k, hne, h2 with
+    | 0, hne, _ => exact hne rfl
+    | 1, _, h2 => simp at h2; omega
+    | 2, _, h2 => simp at h2; omega
+    | k + 3, _, h2 => simp at h2
+  · omega
+
+/-- `dtx_patch_propagates` instantiated: in the quiescent state reached by synchronisation only, EVERY node shows the target -/
+example : ∀ (j : Nat) (dj : Doc), Holds net2 j dj →
+    dj.view.canon = .obj [("arr", .arr [.num 1, .num 3]), ("k", .str "w"), ("o", .obj [("p", .obj [("x", .num 6)])])] := by
+  intro j dj hj
+  have := ((dtx_patch_propagates reach_pre nd0_eq tgt tgt_ok.1 tgt_ok.2 (net1 := net1) rfl syncs12 quiescent2).2.2.2
+    noConc_pre j dj hj).1
+  exact this.trans (by rfl)
+
+/-- … and by evaluation -/
+example : net2.nodes.map (fun nd => (docOf nd.r).view.canon == (JVal.obj tgt).canon) = [true, true, true] := by
+  decide +kernel
+
+end Ex
 
 end Orda.DTx
